@@ -140,10 +140,16 @@ class HistTrav(Hist):
     def _make_gen(self, real, t: Task):
         eng = self
 
-        def fire(what, label):
+        peek = list(real.gates)[:: max(1, len(real.gates) // 4)] if t.tid % 2 == 0 else []
+
+        def fire(what, label, states=None):
             eng.seq += 1
             t.events.append((eng.seq, what, label))
             t.hook_calls += 1
+            if states is not None and peek:
+                # hooks are handed the state map and may look at any gate's state (reading must not change anything)
+                for lab in peek:
+                    _ = states[lab]
             if t.raise_at is not None and t.hook_calls == t.raise_at:
                 eng.res.stats.fired.bump('task:hook-raises')
                 raise _HookBoom()
@@ -159,11 +165,11 @@ class HistTrav(Hist):
             return iter(real.top_sort(inverse=t.inverse))
         kw = {'inverse': t.inverse, 'topsort_unvisited': t.topsort_unvisited}
         if 'enter' in t.hooks:
-            kw['on_enter_hook'] = lambda g, states: fire('enter', g.label)
+            kw['on_enter_hook'] = lambda g, states: fire('enter', g.label, states)
         if 'discover' in t.hooks:
-            kw['on_discover_hook'] = lambda g, states: fire('discover', g.label)
+            kw['on_discover_hook'] = lambda g, states: fire('discover', g.label, states)
         if 'exit' in t.hooks and t.kind == 'dfs':
-            kw['on_exit_hook'] = lambda g, states: fire('exit', g.label)
+            kw['on_exit_hook'] = lambda g, states: fire('exit', g.label, states)
         if 'unvisited' in t.hooks:
             kw['unvisited_hook'] = lambda g, states: fire('unvisited', g.label)
         if 'end' in t.hooks:
